@@ -233,3 +233,16 @@ package linker
 // is resolved to (file, ref); whether that ref is itself an import is recorded in the ImportsToBind table OF THAT
 // FILE, so the lookup that follows a re-export to its declaring symbol must read the resolved file's table.
 //@ flow follow-reexport-in-owning-file C10: func=(*linkerContext).computeCrossChunkDependencies ; in=linker ; site=lookup export.Ref ; mappath=c.graph.Files[export.SourceIndex].InputFile.Repr.Meta.ImportsToBind
+
+// ----------------------------------------------------------------------------------------------
+// C16 (zero-annotation safety sweep): for ALL arguments (no precondition), no index, slice, nil-dereference,
+// division or conversion in the body of these functions can panic. Loop counters that start at a constant and are
+// only incremented get their lower bound as an automatic invariant (`opt auto-counters`); nothing else is assumed.
+// Calls are replaced by contracts, inlined, or havocked: a panic inside a callee without a contract is not covered.
+//@ func joinWithPublicPath
+//@   arith int
+//@   nooverflow off
+//@   safety
+//@   opt auto-counters 1
+//@   prop C16
+
